@@ -25,6 +25,10 @@ MUTANTS = {                      # cfg -> invariants one of which TLC must repor
     "MC_ZSync_before.cfg": ("SyncedAfterEffect",),
     "MC_ZSync_snapnosync.cfg": ("SyncedExact", "RemoteExactlyOnce", "SyncedMonotone", "SyncedSurvivesRestart"),
 }
+# the faithful model of a multi-replica receiver (CancelPrefix: head proposals of a pipelined batch are
+# cancelled by a leader change while later ones commit) - TLC must refute RemoteExactlyOnce: the open
+# finding c19-pipelined-drop-on-leader-change is a result of the model too
+FINDING_MODELS = {"MC_ZSync_pipelined.cfg": ("RemoteExactlyOnce",)}
 REDUNDANT = "MC_ZSync_norecv.cfg"   # the receive-time filter alone is an optimisation: must still hold
 
 _TAGS = {
@@ -48,7 +52,45 @@ def classify(src, seg, exp):
     sig = {"engine": seg[0].get("eng", "?"), "event": e.get("ev"), "tag": tag, "class": _TAGS.get(tag, "other"), "after": after}
     if sig["class"] == "effect-count" and not _surplus(src, e, tag):
         sig["class"] = "effect-missing"
+        if seg[0].get("replicas", 1) > 1 and _contiguous_loss_after_cancel(src, seg):
+            sig["class"] = "multi-replica-pipelined-drop"
     return sig
+
+
+def _contiguous_loss_after_cancel(src, seg):
+    """multi-replica receiver: the last delivery before the failing observation was answered with an error
+    (cancelled proposals) and the effects that are missing below the synced position are exactly those of
+    ONE contiguous range of source entries inside that batch."""
+    e = seg[-1]
+    if e.get("ev") != "obs":
+        return False
+    dl = [x for x in seg[:-1] if x.get("ev") == "deliver"]
+    if not dl or dl[-1].get("code") == 0:
+        return False
+    batch = dl[-1]["batch"]
+    k = e["si"]
+    kinds = src["kinds"]
+    want = [i for i in range(1, k + 1) if kinds[i - 1] == "lpush"]
+    have = set(e.get("lst", []))
+    if len(e.get("lst", [])) != len(have) or not have <= set(want):
+        return False                      # duplicates or foreign elements: not this finding
+    missing = [i for i in want if i not in have]
+    incr_missing = sum(1 for x in kinds[:k] if x == "incr") - e.get("cnt", 0)
+    if incr_missing < 0 or (not missing and incr_missing == 0):
+        return False
+    lo, hi = min(batch), min(max(batch), k)
+    if missing:
+        a, b = missing[0], missing[-1]
+        if a < lo or b > hi or any(i not in missing for i in want if a <= i <= b):
+            return False
+        # the lost range may reach from the push before a (exclusive) to the push after b (exclusive)
+        prev = max([i for i in want if i < a] + [lo - 1])
+        nxt = min([i for i in want if i > b] + [hi + 1])
+        least = sum(1 for i in range(a, b + 1) if kinds[i - 1] == "incr")
+        most = sum(1 for i in range(max(prev + 1, lo), min(nxt - 1, hi) + 1) if kinds[i - 1] == "incr")
+        return least <= incr_missing <= most
+    # only counters are missing: they must fit into one gap between two pushes of the batch
+    return incr_missing <= sum(1 for i in range(lo, hi + 1) if kinds[i - 1] == "incr")
 
 
 def _surplus(src, e, tag):
@@ -205,13 +247,13 @@ def _run(ctx):
     quick = ctx.quick()
 
     # ---------------------------------------------------------------- (A) the design
-    jobs = [("MC_ZSync_big.cfg" if quick else "MC_ZSync_huge.cfg", "main")]
-    jobs += [(c, inv) for c, inv in MUTANTS.items()] + [(REDUNDANT, "redundant")]
+    jobs = [("MC_ZSync_mid.cfg" if quick else "MC_ZSync_big.cfg", "main")]
+    jobs += [(c, inv) for c, inv in list(MUTANTS.items()) + list(FINDING_MODELS.items())] + [(REDUNDANT, "redundant")]
 
     def mc(job):
         cfg, inv = job
         if inv == "main":
-            got, r = _ckpt.model_run(ctx, V, "MC_ZSync", [cfg] if quick else [cfg, "MC_ZSync_big.cfg"], workers=10, timeout=1200)
+            got, r = _ckpt.model_run(ctx, V, "MC_ZSync", [cfg] if quick else [cfg, "MC_ZSync_mid.cfg"], workers=10, timeout=1200)
             return (got or cfg, inv), r
         return job, V.tlc(ctx, "MC_ZSync", cfg, workers=2, timeout=300, heap="2g", tag="mc-" + cfg[:-4])
     main, refuted, model_runs = None, {}, []
@@ -232,7 +274,7 @@ def _run(ctx):
             if r.timed_out:
                 ctx.skipped += 1
                 continue
-            if r.violated not in inv:
+            if r.violated not in (MUTANTS.get(cfg) or FINDING_MODELS.get(cfg)):
                 raise V.Inconclusive("spec mutant %s is not refuted (%s) - the invariants do not bite" % (cfg, r.violated or r.error or "no error"))
             refuted[cfg] = r.violated
     if main is None or not main.ok:
@@ -265,6 +307,12 @@ def _run(ctx):
                   ("pebble-restart", "pebble", ["-random", "8", "-len", "50", "-seed", str(ctx.seed + 80), "-n", "120"])]
         for k in range(4):
             stages.append(("mem-random-%d" % k, "mem", ["-random", "12", "-len", "60", "-seed", str(ctx.seed * 10 + k), "-n", "140", "-agedays", str([0, 8, 40, 2000][k])]))
+        # 3-replica receivers, leader transfers during pipelined batches: only the quiescent state after
+        # every round is judged (agreement of the replicas + fold of the source prefix); on the unchanged
+        # tree this stage can reproduce the open finding c19-pipelined-drop-on-leader-change
+        for k in range(2):
+            stages.append(("multi-replica-%d" % k, "mem", ["-multi", "2", "-len", "40", "-mbatch", "200", "-n", "8200",
+                                                          "-seed", str(ctx.seed * 10 + 8 + k)]))
         for k in range(3):
             stages.append(("pebble-random-%d" % k, "pebble", ["-random", "10", "-len", "50", "-seed", str(ctx.seed * 10 + 5 + k), "-n", "120", "-agedays", str([0, 15, 400][k])]))
     stats = dict(events=0, segments=0, deliver=0, obs=0, sample=0, restart=0, snap=0, abort=0, mismatches=0,
@@ -295,7 +343,8 @@ def _run(ctx):
         states=main.distinct, transitions=main.generated,
         traces_validated_against_impl=stats["segments"],
         samples=samples or [{"note": "no sample"}],
-        model_runs=model_runs, spec_mutants_refuted=refuted,
+        model_runs=model_runs, spec_mutants_refuted={k: v for k, v in refuted.items() if k not in FINDING_MODELS},
+        model_findings_reproduced={k: v for k, v in refuted.items() if k in FINDING_MODELS},
         simulated_behaviours_executed=nfiles,
         events_validated=stats["events"], deliveries=stats["deliver"], deliveries_answered_with_error=stats["deliveries_with_error"],
         observations_checked=stats["obs"], concurrent_samples_checked=stats["sample"],
